@@ -64,6 +64,9 @@ static Case decode(const hv::Bytes& b) {
 			e.action = r.u8() % A_COUNT; e.x = r.u8(); e.y = r.u8(); e.z = r.u8(); e.used = false;
 			if (o.kind == OP_ENTER_EXIT) e.method = (uint8_t) Method::ENTRY_GUARD; // the only scriptable callbacks of an activation are the entry guards
 		}
+#ifdef HV_FUZZER
+		if (o.kind == OP_CHURN && (o.flags & 0xE0)) o.kind = OP_UPDATE; // byte-level mutation picks op kinds uniformly: keep long runs to 1 in 160 ops
+#endif
 		c.ops.push_back(o);
 	}
 	return c;
